@@ -146,9 +146,15 @@ def control_program(pkg):
     return p
 
 
-def _step(p, style="eval"):
+STAGE_LISTS = [["analysis"], ["analysis", "store_inspect"], ["analysis", "store_inspect", "eval"], ["analysis", "store_inspect", "eval", "store_commit"], ["ANALYSIS", "STORE_INSPECT", "EVAL"]]
+
+
+def _step(p, style="eval", stages=None):
     f = p["fns"][p["entry"]]
-    return {"write": gen.render(p), "how": "import", "modules": gen.import_order(p), "entry": {"style": style, "module": gen.modname(p, f["module"]), "func": f["name"], "args_src": "()"}}
+    ent = {"style": style, "module": gen.modname(p, f["module"]), "func": f["name"], "args_src": "()"}
+    if stages is not None:
+        ent["options"] = {"dds_stages": stages}
+    return {"write": gen.render(p), "how": "import", "modules": gen.import_order(p), "entry": ent}
 
 
 def batch_job(arg):
@@ -163,7 +169,7 @@ def batch_job(arg):
         accept = []
         for (cid, kind, expect, p, desc) in cases:
             accept.append(p["pkg"])
-            steps.append(_step(p))
+            steps.append(_step(p, stages=desc.get("stages")))
             ctl = control_program(p["pkg"] + "_ctl")
             accept.append(ctl["pkg"])
             steps.append(_step(ctl))
@@ -284,7 +290,18 @@ def build_cases(tier, seed):
             add("eval-in-eval", "EVAL_IN_EVAL", prog_eval_in_eval("v%d" % n[0], depth, via), {"depth": depth, "via": via})
             add("eval-in-eval", "EVAL_IN_EVAL", prog_eval_in_eval("v%d" % n[0], depth, via, "eval"), {"depth": depth, "via": via, "spelling": "from dds import eval"})
             add("eval-in-eval", "EVAL_IN_EVAL", localize(prog_eval_in_eval("v%d" % n[0], depth, via)), {"depth": depth, "via": via, "imports": "function-local"})
-    return cases
+    # the same ill-formed evaluations restricted to a prefix of the stages (dds_stages): still rejected, nothing runs
+    extra = []
+    ill = [c for c in cases if c[2] is not None and "stages" not in c[4]]
+    for j, (cid, kind, expect, p, desc) in enumerate(ill):
+        if tier == "quick" and (_hi((kind, repr(sorted(desc.items(), key=str)))) + seed) % 9 != 0 and not (kind != "overlap" and j % 3 == 0):
+            continue
+        n[0] += 1
+        q = gen.clone(p)
+        q["pkg"] = p["pkg"] + "s"
+        d2 = dict(desc, stages=STAGE_LISTS[j % len(STAGE_LISTS)])
+        extra.append((n[0], kind, expect, q, d2))
+    return cases + extra
 
 
 def run(tier, seed):
@@ -292,7 +309,7 @@ def run(tier, seed):
     rep.rule = (
         "overlap: every ordered set of 1-3 paths (and sampled sets of 4) over %d paths (all paths of <=3 segments on {a,b} plus the confusers %r), keeps placed at top level / in a helper / nested in kept children / "
         "split over two modules / as data functions; cycles: every cycle of length 1-4 with each edge a plain call, a keep, a higher-order reference or a method call; dds.eval nested at depth 0-4 behind calls, keeps "
-        "and methods; variants with the imports (of dds, of sibling modules) written inside the function bodies; each ill-formed evaluation is followed by a well-formed one in the same process. Ground truth (strict-prefix relation, generated call graph) decides the expected code. "
+        "and methods; variants restricted to a prefix of the stages (dds_stages), variants with the imports (of dds, of sibling modules) written inside the function bodies; each ill-formed evaluation is followed by a well-formed one in the same process. Ground truth (strict-prefix relation, generated call graph) decides the expected code. "
         "distinct_nontrivial = distinct ill-formed cases that were rejected with the expected code." % (len(PATHS), CONFUSERS)
     )
     cases = build_cases(tier, seed)
